@@ -16,6 +16,8 @@ import (
 )
 
 var engines = map[string]func(*engine.Ctx){
+	"C08": engine.C08,
+	"C09": engine.C09,
 	"C10": engine.C10,
 }
 
@@ -92,9 +94,10 @@ func main() {
 		os.Exit(2)
 	}
 	rep := verdict.New(prop, tier, seed, work.VerifDir())
-	if only != "" {
+	if only != "" || os.Getenv("COVERIF_NOEVIDENCE") != "" {
 		rep.NoEvidence = true
 	}
+	rep.Replaying = only != ""
 	c := &engine.Ctx{Property: prop, Tier: tier, Seed: seed, Only: only, Rep: rep}
 	f(c)
 	os.Exit(rep.Finish())
